@@ -112,6 +112,13 @@ class Gen:
             else: self.fs0[p] = dict(t="none", c="")
         for p in ["d", "d/s", "d/s/t", "d/e"]: self.fs0.setdefault(p, dict(t="dir", c=""))
         self.fs0["d"]["t"] = "dir"
+        if r.random() < 0.3:
+            # the documented idiom: the directory itself is the output of a mkdir command, the consumer takes "d/"
+            self.nodes["d"] = node("file", "d"); nd["rootnode"] = "d"
+            desc["cmds"]["mkroot"] = cmd(tool="mkdir", outs=["d"]); desc["order"].append("mkroot")
+            if r.random() < 0.4:          # the directory does not exist before the first build
+                for p in list(self.fs0):
+                    if p == "d" or p.startswith("d/"): self.fs0[p] = dict(t="none", c="")
         self.trees.append((root, layout, filt))
         self.live = {p: e["t"] for p, e in self.fs0.items() if p.startswith("d/") and e["t"] != "none"}
         self.absent("od")
